@@ -4,6 +4,7 @@ import (
 	"fmt"
 	"go/types"
 	"reflect"
+	"sort"
 	"strings"
 
 	"golang.org/x/tools/go/ssa"
@@ -21,6 +22,8 @@ func checkC18(cx *Ctx, r *Report) {
 	r.Clauses = []string{
 		"an unrecognised encoding identifier is an error, never a pass-through: InflateAndDecode returns data only under encoding == \"\" or == DEFLATE",
 		"inflated data is returned complete or not at all: what is read through the size limiter is compared with the bound the limiter was given, and the over-long case is an error (no silent truncation)",
+		"the send functions write the serialisation of the message they are handed: the bytes given to xml.Write, the SAMLResponse form field and the SAMLResponse slot of the redirect query derive from the message parameter (through Marshal / DeflateAndBase64 / base64) and from nothing kept in the reply object or elsewhere",
+		"the serialised text is not edited: what xml.Marshal returns is what the encoder wrote into its buffer (no replacement, trimming or re-formatting of the XML text, which could turn escaped data back into markup); each value of the redirect query is URL-encoded exactly once",
 		"messages are typed trees only: everything handed to the XML encoder in handler-reachable code is one of the module's wire structs; no reply is assembled by string formatting; no wire struct implements a custom XML/text marshaller; no field tagged innerxml / comment / cdata of a wire struct is ever written by module code",
 		"the encode tables of the emitted types equal the schema table (the same struct decodes and encodes, so what the library writes it reads back under the same names)",
 		"encoder close order in DeflateAndBase64: on every success path the flate writer is closed before the base64 encoder and both before the buffer is read; every error edge returns; the result does not alias a pooled buffer",
@@ -35,6 +38,9 @@ func checkC18(cx *Ctx, r *Report) {
 
 	scope := cx.handlerScope()
 	cx.checkFieldFidelity(r, scope)
+	cx.checkSendsWhatItIsGiven(r)
+	cx.checkBuildRedirectQuery(r) // the redirect query is part of the wire encoding: each value escaped exactly once
+	cx.checkMarshalUntouched(r)
 	// --- what reaches the encoder --------------------------------------------------------------------
 	isWire := func(t types.Type) bool {
 		n := namedOf(t)
@@ -272,4 +278,108 @@ func (cx *Ctx) checkFieldFidelity(r *Report, scope map[*ssa.Function]bool) {
 		}
 	}
 	r.Check(n >= 8, "R-VFG", "fidelity:#stores", "", fmt.Sprintf("%d stores of string values into fields of emitted message types examined: none is edited on the way", n), fmt.Sprintf("only %d stores into fields of emitted message types found", n))
+}
+
+// checkSendsWhatItIsGiven (R-VFG): in sendBackResponse / sendBackLogoutResponse everything that becomes the message
+// part of the reply is computed from the message parameter. A copy cached in the Response object (or anywhere else)
+// can belong to another message: the reply would then decode to field values nobody put into the message sent.
+func (cx *Ctx) checkSendsWhatItIsGiven(r *Report) {
+	w := cx.W
+	for _, s := range []struct {
+		key   string
+		param int
+		form  string
+	}{{"provider.(*Response).sendBackResponse", 3, "provider.authResponseForm"}, {"provider.(*LogoutResponse).sendBackLogoutResponse", 2, "provider.LogoutResponseForm"}} {
+		fn := w.Func(s.key)
+		if fn == nil {
+			r.Fail("R-VFG", s.key+":message-bytes", "", "anchor not found")
+			continue
+		}
+		lvf := cx.newVFlow("sends:"+s.key, fn)
+		msg := fmt.Sprintf("param:%s/#%d", s.key, s.param)
+		allowed := []string{msg, msg + ".*", msg + "[*", "const:*", "global:base64.StdEncoding", "via:*", "alloc:*"}
+		sinks := map[string]LabelSet{}
+		if ls, sites := lvf.CallArgSources(matchFnKey(w, "xml.Write"), 1); len(sites) > 0 {
+			sinks["xml.Write"] = ls
+		}
+		if ls, sites := lvf.FieldStoreSources(s.form, "SAMLResponse"); len(sites) > 0 {
+			sinks["form.SAMLResponse"] = ls
+		}
+		if ls, sites := lvf.CallArgSources(matchFnKey(w, "provider.BuildRedirectQuery"), 0); len(sites) > 0 {
+			sinks["redirect.SAMLResponse"] = ls
+		}
+		if len(sinks) == 0 {
+			r.Fail("R-VFG", s.key+":message-bytes", w.FnPos(fn), "no place found where the message is written")
+			continue
+		}
+		// what is marshalled is the message parameter
+		if ls, sites := lvf.CallArgSources(matchFnKey(w, "xml.Marshal"), 0); len(sites) == 0 {
+			r.Fail("R-VFG", s.key+":marshals-parameter", w.FnPos(fn), "the message parameter is no longer marshalled here")
+		} else {
+			r.checkSources("R-VFG", s.key+":marshals-parameter", w.InstrPos(sites[0]), ls, []string{msg}, []string{msg}, true)
+		}
+		var names []string
+		for k := range sinks {
+			names = append(names, k)
+		}
+		sort.Strings(names)
+		for _, k := range names {
+			ls := lvf.Deep(sinks[k])
+			var bad []string
+			has := false
+			for _, l := range ls.leaves() {
+				if l == "const:zero" {
+					continue
+				}
+				if l == msg || strings.HasPrefix(l, msg+".") || strings.HasPrefix(l, msg+"[") {
+					has = true
+				}
+				if !matchAny(allowed, l) {
+					bad = append(bad, l)
+				}
+			}
+			_ = has
+			r.Check(len(bad) == 0, "R-VFG", s.key+":message-bytes:"+k, w.FnPos(fn), "derived from the message parameter only", fmt.Sprintf("what is written as the message can come from %v instead of (only) the message handed to the function", bad))
+		}
+	}
+}
+
+// checkMarshalUntouched (R-VFG): the bytes xml.Marshal / WriteXMLMarshalled hand on are the encoder's output as it is.
+// Any text-level rewriting of the serialised document (strings.Replacer, ReplaceAll, regular expressions, trimming)
+// works on markup and data alike: an escaped quote or ampersand of a field value can become structure.
+func (cx *Ctx) checkMarshalUntouched(r *Report) {
+	w := cx.W
+	for _, k := range []string{"xml.Marshal", "xml.WriteXMLMarshalled", "xml.Write"} {
+		fn := w.Func(k)
+		if fn == nil {
+			r.Fail("R-VFG", k+":untouched", "", "anchor not found")
+			continue
+		}
+		lvf := cx.newVFlow("untouched:"+k, fn)
+		ls := LabelSet{}
+		for _, ret := range returnsOf(fn) {
+			if len(ret.Results) > 0 && k == "xml.Marshal" {
+				ls.addAll(lvf.Labels(ret.Results[0]), 0)
+			}
+		}
+		for _, c := range callsIn(fn) {
+			if c.Common().IsInvoke() && isResponseWriter(c.Common().Value.Type()) && c.Common().Method.Name() == "Write" {
+				ls.addAll(lvf.Labels(c.Common().Args[0]), 0)
+			}
+		}
+		var vias []string
+		for _, l := range lvf.Deep(ls).keys() {
+			if strings.HasPrefix(l, "via:") {
+				switch l {
+				case "via:(*bytes.Buffer).Bytes", "via:(*bytes.Buffer).String", "via:convert":
+				default:
+					vias = append(vias, l)
+				}
+			}
+			if strings.HasPrefix(l, "ext:") && k == "xml.Marshal" {
+				vias = append(vias, l) // the result of a library call other than the buffer accessors
+			}
+		}
+		r.Check(len(vias) == 0, "R-VFG", k+":untouched", w.FnPos(fn), "the serialised document is handed on as the encoder wrote it", "the serialised XML text is rewritten before it is handed on ("+strings.Join(vias, ", ")+"): replacements on the text cannot tell markup from escaped data")
+	}
 }
